@@ -339,6 +339,9 @@ func ruleC04(c *Ctx, r *Report) {
 	// ---------------------------------------------------------------- R5 order and completeness
 	r.Floor("C04-R5", 5, "parser order, array append, scalar token, serialiser order, serialiser completeness")
 	insertionOrderRule(c, r, "C04-R5")
+	// "identical string contents": every key and string leaf of the untouched parts reaches the
+	// line through encoding/json alone (an escaping shortcut alters contents outside the zones)
+	c03Serialiser(c, r, p, "C04-R5")
 	c04Parser(c, r)
 	c04SerialiserComplete(c, r)
 
